@@ -544,6 +544,16 @@ class Hang(Exception):
 _HUNG = set()      # op lines on which the implementation already failed to return (do not wait twice)
 
 
+def _limit(lo, hi, cubes):
+    """2 s where the recorded finding F-20a applies (use_cubes=True on a box that is flat in some direction:
+    frange with step 0 never ends); otherwise the generous per-case limit of the framework - a slow but
+    terminating call on a loaded machine must not be reported as a hang"""
+    import core
+    if cubes and any(a == b for a, b in zip(lo, hi)):
+        return 2.0
+    return max(30.0, core.CASE_LIMIT_S)
+
+
 def guarded(f, seconds=2.0):
     """run f() but give up after `seconds` (the voxel grid of a flat box with use_cubes=True never finishes, F-20a)"""
     import signal
@@ -578,7 +588,8 @@ def _voxelize(d):
     kw = dict(grid_size=tuple(d['sz']), use_cubes=d['cubes'], num_procs=1)
     if d['tol'] is not None:
         kw['tol'] = q(d['tol'])
-    return s, guarded(lambda: voxelize.voxelize(s, **kw))
+    lo_, hi_ = bbox_of(d['P'])
+    return s, guarded(lambda: voxelize.voxelize(s, **kw), _limit(lo_, hi_, d['cubes']))
 
 
 def impl(c):
@@ -599,7 +610,8 @@ def impl(c):
         return show_list(list(linalg.frange(q(d['a']), q(d['b']), q(d['step']))))
     if k == 'voxgrid':
         try:
-            return show_pts2(guarded(lambda: vxl.generate_voxel_grid([qs(d['lo']), qs(d['hi'])], d['sz'], use_cubes=d['cubes'])))
+            return show_pts2(guarded(lambda: vxl.generate_voxel_grid([qs(d['lo']), qs(d['hi'])], d['sz'], use_cubes=d['cubes']),
+                                     _limit(d['lo'], d['hi'], d['cubes'])))
         except Hang:
             _HUNG.add(c.line)
             return "HANG"
@@ -706,7 +718,7 @@ def oracle(c):
         try:
             if c.line in _HUNG:
                 raise Hang()
-            grid = guarded(lambda: vxl.generate_voxel_grid([qs(lo), qs(hi)], sz, use_cubes=d['cubes']))
+            grid = guarded(lambda: vxl.generate_voxel_grid([qs(lo), qs(hi)], sz, use_cubes=d['cubes']), _limit(lo, hi, d['cubes']))
         except Hang:
             return "generate_voxel_grid(use_cubes=%s) does not return for the box %s .. %s" % (d['cubes'], show_list(lo), show_list(hi))
         return check_grid(grid, lo, hi, sz, d['cubes'])
